@@ -17,6 +17,7 @@ import (
 	"github.com/Comcast/sheens/match"
 	"github.com/Comcast/sheens/tools/expect"
 	"github.com/Comcast/sheens/verifrt/vh"
+	jyaml "github.com/jsccast/yaml"
 )
 
 var Checks = map[string]vh.CheckFunc{
@@ -38,6 +39,9 @@ type c19Case struct {
 	// SplitAt > 0: the subprocess prints the first SplitAt lines at once and the rest a moment later (a second
 	// write, so a second read on the tool's side)
 	SplitAt int `json:"split_at,omitempty"`
+	// ViaYAML: the session is written as a session file (the documented fields of specs/tests/*.test.yaml) and
+	// loaded the way cmd/mexpect loads it, instead of being built as Go values
+	ViaYAML bool `json:"via_yaml,omitempty"`
 }
 
 var c19Msgs = map[string]string{"A": `{"a":1}`, "B": `{"b":1}`, "C": `{"c":1}`, "noise": `this is not json`,
@@ -111,7 +115,40 @@ func refPassMode(cs c19Case, strict bool) bool {
 	return true
 }
 
+func c19SessionYAML(cs c19Case, timeout time.Duration) (*expect.Session, error) {
+	var b strings.Builder
+	b.WriteString("doc: generated\nios:\n")
+	for _, set := range cs.Steps {
+		fmt.Fprintf(&b, "- doc: a step\n  timeout: %s\n  outputSet:\n", timeout)
+		for _, o := range set {
+			js, _ := json.Marshal(c19Pats[o.Pat])
+			fmt.Fprintf(&b, "  - pattern: '%s'\n", js)
+			if o.Inverted {
+				b.WriteString("    inverted: true\n")
+			}
+			src := map[string]string{"accept": "return _.bindings;", "reject": "return null;", "pick-y": `return _.bindings["?t"] == "y" ? _.bindings : null;`}[o.Guard]
+			if src != "" {
+				fmt.Fprintf(&b, "    guardSource:\n      interpreter: ecmascript\n      source: '%s'\n", src)
+			}
+		}
+	}
+	fmt.Fprintf(&b, "parsePatterns: true\ndefaultTimeout: %s\n", timeout)
+	var s expect.Session
+	if err := jyaml.Unmarshal([]byte(b.String()), &s); err != nil {
+		return nil, err
+	}
+	s.Interpreters = core.InterpretersMap{"ecmascript": ecmascript.NewInterpreter()}
+	return &s, nil
+}
+
 func c19Session(cs c19Case, timeout time.Duration) *expect.Session {
+	if cs.ViaYAML {
+		if s, err := c19SessionYAML(cs, timeout); err == nil {
+			return s
+		}
+		// a session file that does not load cannot pass
+		return &expect.Session{Interpreters: core.InterpretersMap{}, IOs: []expect.IO{{Timeout: time.Millisecond, OutputSet: []expect.Output{{Pattern: "unloadable"}}}}, DefaultTimeout: time.Millisecond}
+	}
 	s := &expect.Session{Interpreters: core.InterpretersMap{"ecmascript": ecmascript.NewInterpreter()}, DefaultTimeout: timeout}
 	for _, set := range cs.Steps {
 		iop := expect.IO{Timeout: timeout}
@@ -228,7 +265,7 @@ func C19(c *vh.Ctx) {
 	maxSet, maxStream := c.Pick(2, 3), c.Pick(3, 4)
 	c.Bound("output_set_max", maxSet)
 	c.Bound("stream_max", maxStream)
-	c.Rule("sessions of one step with every output set (multiset) of up to the bound over {pattern A, pattern B} x {expected, inverted} x guard {none, accept, reject}, a second family with a pattern that matches one message in several ways (an array variable) with guards that accept all / one of the ways, a third family with emitted lines of 6 and 9 kilobytes (longer than a default read buffer; the whole stream stays below the pipe buffer, because the tool does not drain the output of a subprocess it has stopped listening to), two-step sessions over a reduced set list, also with the stream arriving in two writes; every stream up to the bound over {A, B, C, a non-JSON noise line} including repetitions; the tool drives a scripted subprocess that prints the stream; oracle: the tool may pass only if the reference pass conditions hold (most permissive consumption). Cases the reference fails run with a short timeout (which can only turn pass into fail). non-trivial = reference says pass.")
+	c.Rule("sessions of one step with every output set (multiset) of up to the bound over {pattern A, pattern B} x {expected, inverted} x guard {none, accept, reject}, a second family with a pattern that matches one message in several ways (an array variable) with guards that accept all / one of the ways, a third family with emitted lines of 6 and 9 kilobytes (longer than a default read buffer; the whole stream stays below the pipe buffer, because the tool does not drain the output of a subprocess it has stopped listening to), two-step sessions over a reduced set list, also with the stream arriving in two writes; every stream up to the bound over {A, B, C, a non-JSON noise line} including repetitions; the sessions with short streams also written as session files (documented fields) and loaded as cmd/mexpect loads them; the tool drives a scripted subprocess that prints the stream; oracle: the tool may pass only if the reference pass conditions hold (most permissive consumption). Cases the reference fails run with a short timeout (which can only turn pass into fail). non-trivial = reference says pass.")
 	kinds := []expOut{}
 	for _, p := range []string{"A", "B"} {
 		for _, inv := range []bool{false, true} {
@@ -278,6 +315,11 @@ func C19(c *vh.Ctx) {
 			one(cs)
 			if c.WantSample() && len(set) == 2 && len(st) == 3 {
 				c.Sample(cs)
+			}
+			if len(st) <= 2 && len(set) <= 2 {
+				// the same session as a session file
+				cs.ViaYAML = true
+				one(cs)
 			}
 		}
 	}
